@@ -21,6 +21,7 @@ import (
 	"github.com/logrange/logrange/pkg/cursor"
 	"github.com/logrange/logrange/pkg/model/tag"
 	journal2 "github.com/logrange/logrange/pkg/partition"
+	"github.com/logrange/logrange/pkg/utils/verifhook"
 	context2 "github.com/logrange/range/pkg/context"
 	"github.com/logrange/range/pkg/utils/errors"
 	"github.com/logrange/range/pkg/utils/fileutil"
@@ -160,6 +161,8 @@ func (s *Service) CreatePipe(p Pipe) (PipeDesc, error) {
 	if err != nil {
 		return PipeDesc{}, err
 	}
+
+	verifhook.At("pipe.create.betweenChecks")
 
 	// check for raise now
 	s.lock.Lock()
